@@ -10,8 +10,8 @@ from vf import core, e2, e3, reent, spaces
 PID = "C14"
 LEVEL = "model_checking"
 RULE = ("E2: breadth-first search over call histories on the real code (5 classes x 3 model configs [thorough: 4]; full operation "
-        "alphabet of 282 calls (outcomes as ranks; every plain call a second time with positive integer scores) under the default and limit_sigma models, reduced alphabet of 146 under tau=0 [thorough: full alphabet under all four incl. tau=2beta; "
-        "everywhere]; depth 2, thorough adds depth 3 on the reduced alphabet; plus the option-toggle alphabet (32 calls on one pair of long-lived ratings: every per-call option combination x 3 outcomes, a foreign model's calls, mutate, restore, deepcopy, a rejected call) to depth 3, thorough 4; every history starts from a warm state (predictions made, two games rated between scratch ratings with the league's values); on every transition I1 (model "
+        "alphabet of 292 calls (outcomes as ranks; every plain call a second time with positive integer scores) under the default and limit_sigma models, reduced alphabet of 153 under tau=0 [thorough: full alphabet under all four incl. tau=2beta; "
+        "everywhere]; depth 2, thorough adds depth 3 on the reduced alphabet; plus the option-toggle alphabet (33 calls on one pair of long-lived ratings: every per-call option combination x 3 outcomes, a foreign model's calls, mutate, restore, deepcopy, a rejected call) to depth 3, thorough 4; every history starts from a warm state (predictions made, two games rated between scratch ratings with the league's values); on every transition I1 (model "
         "snapshot unchanged) and I2 (bit-identical to the same call on a fresh model and fresh ratings with the same "
         "values, other ids and names; the same again with every rating carrying one id), I8 (a valid call leaves its teams / ranks / scores containers unchanged, so a "
         "caller that re-uses them gets answers independent of the earlier call). E3: every schedule with <= b preemptions of harnesses H1-H15 (H14/H15: identical games in both threads; also under cache pressure: 140/300 filler calls with fresh values before every execution) (2-3 threads sharing "
@@ -311,13 +311,16 @@ def pre_import():
 def main(ctx, t0):
     e3.install_lock_shim()
     core.deterministic_ids(0)
-    procs = seed_runs_start(ctx)
+    # VERIF_C14_PARTS (tooling only: bin/seed-keep runs against seeded changes) restricts the run to some of its parts; every part only
+    # ever ADDS violations, so a restricted run that reports one proves that the full check reports it.  Unset = everything.
+    parts = set((os.environ.get("VERIF_C14_PARTS") or "e2,toggle,e3,cold,census,reent,i1,seed").split(","))
+    procs = seed_runs_start(ctx) if "seed" in parts else []
     # ---- E2
     searches = [(k, c, "full" if c in ("default", "limit") or ctx.thorough else "reduced") for k in spaces.KINDS for c in e2.MODEL_CFGS
-                if ctx.thorough or c != "tau2b"]
+                if ctx.thorough or c != "tau2b"] if "e2" in parts else [(k, "default", "small") for k in spaces.KINDS]
     stats, acc = e2.explore(searches, 2, ctx, invs=INVS)
-    tog = [(k, c, "toggle") for k in spaces.KINDS for c in ("default", "limit")]
-    stats_t, acc_t = e2.explore(tog, 4 if ctx.thorough else 3, ctx, chunk=32, invs=INVS)
+    tog = [(k, c, "toggle") for k in spaces.KINDS for c in ("default", "limit")] if "toggle" in parts else []
+    stats_t, acc_t = e2.explore(tog, 4 if ctx.thorough else 3, ctx, chunk=32, invs=INVS) if tog else ({}, core.Acc())
     stats.update(stats_t)
     acc.merge(acc_t)
     stats3 = {}
@@ -341,20 +344,24 @@ def main(ctx, t0):
     merges = sum(s["merges"] for s in stats.values()) + sum(s["merges"] for s in stats3.values())
     # ---- E3
     units = []
-    for (h, kind, gran, bound, parts) in e3_plan(ctx):
-        for k in range(parts):
-            units.append(("e3", h, kind, gran, bound, k, parts))
+    for (h, kind, gran, bound, nparts) in (e3_plan(ctx) if "e3" in parts else []):
+        for k in range(nparts):
+            units.append(("e3", h, kind, gran, bound, k, nparts))
     for kind in spaces.KINDS:
         for h in (e3.HARNESSES if ctx.thorough else ("H1", "H4", "H5", "H8")):
-            units.append(("census", h, kind))
+            if "census" in parts:
+                units.append(("census", h, kind))
     for kind in spaces.KINDS:
         for h in (e3.HARNESSES if ctx.thorough else COLD_QUICK):
-            units.append(("cold", h, kind, 1))
+            if "cold" in parts:
+                units.append(("cold", h, kind, 1))
     for kind in spaces.KINDS:
-        units.append(("reent", kind))
+        if "reent" in parts:
+            units.append(("reent", kind))
         for sp, K in I1_SPACES:
             for k in range(2):
-                units.append(("i1", kind, sp, K, k, 2))
+                if "i1" in parts:
+                    units.append(("i1", kind, sp, K, k, 2))
     if ctx.thorough:
         for kind in spaces.KINDS:
             for h in ("H1", "H5"):
@@ -362,11 +369,11 @@ def main(ctx, t0):
     acc_e3 = core.run_units(units, dispatch, ctx)
     keep.merge(acc_e3)
     # ---- seeds
-    seed_out = seed_runs_collect(procs, keep)
+    seed_out = seed_runs_collect(procs, keep) if procs else []
     keep.nontrivial = sum(s["states"] for s in stats.values())
     s0 = next(iter(stats))
     sr = e2._search(s0)
-    keep.samples.insert(0, {"engine": "E2", "search": list(s0), "history": [e2.describe(sr.ops[3]), e2.describe(sr.ops[130])],
+    keep.samples.insert(0, {"engine": "E2", "search": list(s0), "history": [e2.describe(sr.ops[3]), e2.describe(sr.ops[min(130, len(sr.ops) - 1)])],
                            "checked": "I1, I2 on every transition of this history"})
     shared_writes = keep.count.get("census_shared_writes", 0)
     extra = {
